@@ -52,7 +52,7 @@ CONSTANTS
     Ends,         \* subset of {"ret","raise","interrupt"}
     Classes,      \* set of class parameter records (see ClassOK)
     Draws,        \* subset of {"low","high"}: the uniform draw relative to a fractional rate
-    Extractors,   \* subset of {"none","ok","raises","junk"}
+    Extractors,   \* subset of {"none","ok","raises","junk","interrupts"}
     SaveFails,    \* subset of BOOLEAN
     Toggles,      \* how many enable/disable calls a history may contain
     StartEnabled, \* set of initial values of recording_enabled
@@ -95,7 +95,8 @@ InitRec == [enabled |-> FALSE, active |-> FALSE, cur |-> 0, force |-> FALSE, cnt
 
 Init ==
     /\ \E e \in StartEnabled : rec = [InitRec EXCEPT !.enabled = e]
-    /\ cas = [created |-> 0, saves |-> [r \in Recs |-> 0], aborts |-> [r \in Recs |-> 0], store |-> <<>>]
+    /\ cas = [created |-> 0, saves |-> [r \in Recs |-> 0], aborts |-> [r \in Recs |-> 0], lost |-> [r \in Recs |-> 0],
+              store |-> <<>>]
     /\ ctl = [phase |-> "idle", opRec |-> FALSE, steps |-> 0, runs |-> 0, mode |-> "", rprog |-> <<>>, pidx |-> 0,
               rend |-> None2, toggles |-> 0, end |-> None2, failed |-> FALSE, freq |-> FALSE]
     /\ prog = <<>>
@@ -272,19 +273,30 @@ Finalise(draw, ex, sf) ==
        ELSE LET keep == Keep(rec.force, rec.cls, draw)
                 uses == rec.cls.rate = "frac" /\ ~rec.force          \* does the draw matter
                 m    == MetaOf(rec.cls, ctl.end, rec.data, ex)
+                \* the post-operation metadata extractor is interrupted (BaseException: not swallowed like an ordinary
+                \* exception of the extractor): the finally-block is left before the save - the recording is neither
+                \* saved nor aborted (`lost'), the caller sees the interrupt instead of the operation's outcome.  A
+                \* deviation modelled as the code behaves; outside the terminations C05 quantifies over (steps of the
+                \* operation), used for the histories of C09 / C17: nothing of the run may leak into the next one
+                lost == keep /\ ex = "interrupts"
             IN
             /\ ~uses => draw = "low"
             /\ ~keep => (ex = "none" /\ sf = FALSE)
-            /\ IF keep
+            /\ lost => sf = FALSE
+            /\ IF lost
+               THEN cas' = [cas EXCEPT !.lost[rec.cur] = @ + 1]
+               ELSE IF keep
                THEN cas' = [cas EXCEPT !.saves[rec.cur] = @ + 1,
                                        !.store = IF sf THEN @ ELSE
                                                  Put(@, rec.cur, [data |-> rec.data, meta |-> m, prog |-> prog,
                                                                   end |-> ctl.end])]
                ELSE cas' = [cas EXCEPT !.aborts[rec.cur] = @ + 1]
-            /\ ev' = [Ev0 EXCEPT !.kind = "finalise", !.decision = IF keep THEN "keep" ELSE "drop",
+            /\ ev' = [Ev0 EXCEPT !.kind = "finalise", !.decision = IF lost THEN "lost" ELSE IF keep THEN "keep" ELSE "drop",
                                  !.draw = IF uses THEN draw ELSE "", !.extractor = ex, !.saveFails = sf,
-                                 !.rid = rec.cur, !.seen = ctl.end, !.cls = rec.cls.name, !.freq = ctl.freq,
-                                 !.calls = IF keep THEN <<"save">> ELSE <<"abort">>, !.keys = DOMAIN rec.data]
+                                 !.rid = rec.cur, !.seen = IF lost THEN <<"int", "BI">> ELSE ctl.end,
+                                 !.cls = rec.cls.name, !.freq = ctl.freq,
+                                 !.calls = IF lost THEN <<>> ELSE IF keep THEN <<"save">> ELSE <<"abort">>,
+                                 !.keys = DOMAIN rec.data]
     /\ rec' = [InitRec EXCEPT !.enabled = rec.enabled]
     /\ ctl' = [ctl EXCEPT !.phase = "idle", !.opRec = FALSE, !.steps = 0, !.end = None2, !.freq = FALSE]
     /\ prog' = <<>>
@@ -471,9 +483,11 @@ Spec == Init /\ [][Next]_vars
 (* Properties *)
 
 \* C05
-FinalisedAtMostOnce == \A r \in Recs : cas.saves[r] + cas.aborts[r] <= 1
-FinalisedOnce == ctl.phase = "idle" => \A r \in 1 .. cas.created : cas.saves[r] + cas.aborts[r] = 1
-NothingBeforeCreate == \A r \in Recs : r > cas.created => cas.saves[r] + cas.aborts[r] = 0
+\* (cas.lost: finalisations that were themselves interrupted - only with "interrupts" \in Extractors, see Finalise)
+FinalisedAtMostOnce == \A r \in Recs : cas.saves[r] + cas.aborts[r] + cas.lost[r] <= 1
+FinalisedOnce == ctl.phase = "idle" => \A r \in 1 .. cas.created : cas.saves[r] + cas.aborts[r] + cas.lost[r] = 1
+NothingBeforeCreate == \A r \in Recs : r > cas.created => cas.saves[r] + cas.aborts[r] + cas.lost[r] = 0
+LostOnlyByInterruptedFinalisation == \A r \in Recs : cas.lost[r] > 0 => "interrupts" \in Extractors
 
 \* every intercepted call that happened in the recorded run of a stored recording has its key(s)
 Captured(p, d) ==
@@ -544,9 +558,9 @@ DocKeep(requested, c, draw) ==
     \/ c.rate \in {"one", "above"}
     \/ c.rate = "frac" /\ draw = "low"
 KeepPolicy ==
-    ev.kind = "finalise" /\ ev.decision \in {"keep", "drop"} =>
+    ev.kind = "finalise" /\ ev.decision \in {"keep", "drop", "lost"} =>
         LET c == CHOOSE c \in Classes : c.name = ev.cls IN
-        /\ (ev.decision = "keep") <=> DocKeep(ev.freq, c, ev.draw)
+        /\ (ev.decision \in {"keep", "lost"}) <=> DocKeep(ev.freq, c, ev.draw)
         /\ (ev.draw # "") <=> (c.rate = "frac" /\ ~(ev.freq /\ ~c.ignoreForce))   \* a draw decides only then
 SkippedNeverRecords == ev.kind = "enter" /\ (\E c \in Classes : c.name = ev.cls /\ c.skipped) => ev.calls = <<>>
 
